@@ -5,6 +5,7 @@ import (
 	"fmt"
 	"hash"
 	"math/big"
+	"sync"
 	"sync/atomic"
 
 	"github.com/free5gc/ike/eap"
@@ -375,7 +376,35 @@ func c07(c *core.Ctx) {
 	c.Info("assumptions", "reference HMAC/prf+ in /verif/harness/ref; lengths table typed from RFC 7296/4868/2404/2403")
 	c.Family("derive", c.N(54*100, 54*100000), c07Derive)
 	c.Family("two-party", c.N(162, 30000), c07TwoParty)
-	c.Require("sa_logged_before_use", "offers_prepared_from_returned_transforms_before", "two_party_runs", "two_party_shared_secret_with_leading_zeros", "held_sa_keys_rechecked", "same_object_keyed_twice")
+	// shared secrets (same nonces, SPIs, algorithms) that agree in a weak fingerprint
+	c.Family("colliding-secrets", c.N(54, 5400), func(k *core.Case) {
+		ci := k.Index % 54
+		e, i, p, d := ci%3, (ci/3)%3, (ci/9)%3, (ci/27)%2
+		st := ref.Suite{EncKeyLen: []int{16, 24, 32}[e], Integ: i}
+		fp := core.Fingerprints[k.Index%len(core.Fingerprints)]
+		n := []int{128, 256}[d]
+		s1 := k.R.Bytes(n)
+		s2 := append([]byte{}, s1...)
+		s2[k.R.Intn(n)] ^= 1
+		if !core.PatchToCollide(s2, k.R.Intn(n-fp.Bytes+1), fp, fp.F(s1)) || bytes.Equal(s1, s2) {
+			return
+		}
+		nonce, spii, spir := k.R.Bytes(64), k.R.U64(), k.R.U64()
+		for round, sh := range [][]byte{s1, s2, s1} {
+			k.Eval(1)
+			key := newInfoKey(e, i, p, d)
+			if err := key.GenerateKeyForIKESA(append([]byte{}, nonce...), append([]byte{}, sh...), spii, spir); err != nil {
+				k.Violate("derive-error", "derive-error/colliding-secrets", err.Error(), nil)
+				return
+			}
+			if bad := cmpKeys(key, ref.DeriveIKE(p, st, nonce, sh, spii, spir)); bad != "" {
+				k.Violate("mismatch", "ike-key-mismatch/secret-collides-with-an-earlier-one/"+fp.Name, fmt.Sprintf("derivation %d: %s", round+1, bad), M{"secret1": core.Hex(s1), "secret2": core.Hex(s2)})
+				return
+			}
+		}
+		k.Count("colliding_secret_pairs", 1)
+	})
+	c.Require("colliding_secret_pairs", "sa_logged_before_use", "offers_prepared_from_returned_transforms_before", "two_party_runs", "two_party_shared_secret_with_leading_zeros", "held_sa_keys_rechecked", "same_object_keyed_twice")
 }
 
 // ---------------------------------------------------------------------------
@@ -581,7 +610,54 @@ func c08(c *core.Ctx) {
 	c.Info("assumptions", "each derivation uses a new ChildSAKey (the method appends to the receiver's slices; reusing a ChildSAKey is outside the property)")
 	c.Family("derive", c.N(20000, 30000000), c08One)
 	c.Family("history", c.N(108, 100000), c08History)
-	c.Require("ike_sa_rekeyed_in_history", "earlier_child_sas_rechecked", "child_object_from_proposal_constructor", "child_object_copied_from_a_template")
+	// both ends of one IKE SA in one process (a gateway and a UE simulator, two workers serving the same SA from
+	// replicated state): DISTINCT IKESAKey objects holding EQUAL keys, each used by its own goroutine only
+	c.Family("equal-keys-in-parallel", c.N(18, 2000), func(k *core.Case) {
+		s := ref.Suites[k.Index%9]
+		raw := libsa.RandomRaw(k.R, s)
+		const G = 4
+		iters := k.N(400, 4000)
+		bad := make([]string, G)
+		var wg sync.WaitGroup
+		for g := 0; g < G; g++ {
+			key, err := libsa.NewKey(raw)
+			if err != nil {
+				return
+			}
+			wg.Add(1)
+			go func(g int, key *security.IKESAKey, r *core.Rng) {
+				defer wg.Done()
+				p := core.Try(func() {
+					for it := 0; it < iters && bad[g] == ""; it++ {
+						e, i := r.Intn(3), r.Intn(4)
+						nonces := r.Bytes(r.Range(0, 64))
+						ck := newChild(e, i)
+						if err := ck.GenerateKeyForChildSA(key, nonces); err != nil {
+							bad[g] = err.Error()
+							return
+						}
+						if b := childCmp(ck, raw.Prf, raw.K.D, nonces, e, i); b != "" {
+							bad[g] = fmt.Sprintf("derivation %d of worker %d: %s", it, g, b)
+						}
+					}
+				})
+				if p != nil {
+					bad[g] = "panic: " + p.Value
+				}
+			}(g, key, core.NewRng(k.R.U64()))
+		}
+		wg.Wait()
+		k.Eval(G * iters)
+		for _, b := range bad {
+			if b != "" {
+				k.Violate("interference", "child-keys-wrong-when-equal-keyed-SA-objects-run-in-parallel", b, M{"suite": s.Name(), "keys": raw.JSON()})
+				return
+			}
+		}
+		k.Count("equal_keyed_objects_in_parallel", 1)
+		k.Distinct("parallel-equal-keys|" + s.Name())
+	})
+	c.Require("equal_keyed_objects_in_parallel", "ike_sa_rekeyed_in_history", "earlier_child_sas_rechecked", "child_object_from_proposal_constructor", "child_object_copied_from_a_template")
 }
 
 // ---------------------------------------------------------------------------
@@ -684,6 +760,52 @@ func c16(c *core.Ctx) {
 	c.Info("assumptions", "reference PRF' = hand-built HMAC-SHA-256 iteration (RFC 5448 3.4.1)")
 	c.Family("all-length-pairs", 65*65, func(k *core.Case) { c16One(k, k.Index%65, k.Index/65) })
 	c.Require("results_overwritten_then_recomputed", "keys_refreshed_in_place")
+	// two DIFFERENT key pairs (same identity) that agree in a weak fingerprint of IK'|CK' (or of IK', or of CK'): computed,
+	// not searched - CRC-32 variants, CRC-64 and XOR folds are affine, so the second key is solved for
+	c.Family("colliding-keys", c.N(3*len(core.Fingerprints)*8, 3*len(core.Fingerprints)*400), func(k *core.Case) {
+		fp := core.Fingerprints[k.Index%len(core.Fingerprints)]
+		region := k.Index / len(core.Fingerprints) % 3
+		k1 := k.R.Bytes(32)
+		k2 := append([]byte{}, k1...)
+		lo, hi := 0, 32
+		if region == 1 {
+			hi = 16
+		} else if region == 2 {
+			lo = 16
+		}
+		k2[lo+k.R.Intn(hi-lo)] ^= byte(1 << uint(k.R.Intn(8)))
+		pos := lo + k.R.Intn(hi-lo-fp.Bytes+1)
+		w := core.Fingerprint{Name: fp.Name, Bits: fp.Bits, Bytes: fp.Bytes, F: func(b []byte) uint64 { return fp.F(b[lo:hi]) }}
+		if !core.PatchToCollide(k2, pos, w, w.F(k1)) || bytes.Equal(k1, k2) {
+			k.Count("no_collision_constructed", 1)
+			return
+		}
+		id := k.R.Bytes(k.R.Range(0, 60))
+		for round, kk := range [][]byte{k1, k2, k1, k2} {
+			k.Eval(1)
+			var out [5][]byte
+			var err error
+			pn := core.Try(func() {
+				out[0], out[1], out[2], out[3], out[4], err = eap.EapAkaPrimePRF(append([]byte{}, kk[:16]...), append([]byte{}, kk[16:]...), string(id))
+			})
+			mk := ref.PrfPrime(kk, append([]byte("EAP-AKA'"), id...), 208)
+			want := [5][]byte{mk[:16], mk[16:48], mk[48:80], mk[80:144], mk[144:208]}
+			wd := M{"fingerprint": fp.Name, "region": region, "key1": core.Hex(k1), "key2": core.Hex(k2), "identity": core.Hex(id), "round": round}
+			if pn != nil || err != nil {
+				k.Violate("error", "prf'-error/colliding-keys", fmt.Sprint(err, pn), wd)
+				return
+			}
+			for j := range out {
+				if !bytes.Equal(out[j], want[j]) {
+					k.Violate("mismatch", "prf'-wrong-for-a-key-pair-that-collides-with-an-earlier-one/"+fp.Name, fmt.Sprintf("derivation %d, output %d differs from the reference", round+1, j), wd)
+					return
+				}
+			}
+		}
+		k.Count("colliding_key_pairs_derived", 1)
+		k.Distinct(fmt.Sprintf("collide|%s|%d", fp.Name, region))
+	})
+	c.Require("colliding_key_pairs_derived")
 	c.Family("sampled", c.N(40000, 60000000), func(k *core.Case) {
 		if k.R.Chance(2, 3) {
 			c16One(k, 16, 16)
